@@ -156,7 +156,9 @@ func wireAtom(kind string, raw interface{}) (Atom, bool) {
 			return AS(s), true
 		}
 	case "uuid":
-		if l, ok := raw.([]interface{}); ok && len(l) == 2 && l[0] == "uuid" {
+		// (the library writes a uuid position that holds no well-formed uuid, such as the empty default of a
+		// uuid column, as a named-uuid: the same atom as far as the difference made by a transaction goes)
+		if l, ok := raw.([]interface{}); ok && len(l) == 2 && (l[0] == "uuid" || l[0] == "named-uuid") {
 			if s, ok := l[1].(string); ok {
 				return AU(s), true
 			}
@@ -293,12 +295,15 @@ func c07Wire(r *Run, nHist int) {
 			ref := newImplDB(ts)
 			sh := newShadow()
 			var txns []TxnJ
+			var pre, post []DumpRow
 			commit := func() (database.Update, bool) {
 				txn := genTxn(rng, ts, sh, 1+rng.Intn(4))
 				clampWaits(&txn)
 				txns = append(txns, txn)
+				pre = rig.im.dump()
 				res, err := writer.Transact(ctx, toOvsOps(txn.Ops)...)
-				sh.load(rig.im.dump())
+				post = rig.im.dump()
+				sh.load(post)
 				if err != nil {
 					return nil, false
 				}
@@ -386,14 +391,40 @@ func c07Wire(r *Run, nHist int) {
 						return
 					}
 					have, why := "", ""
+					var w1 []Notif1Row
+					var w2 []Notif2Row
 					if len(mine) == 1 {
-						have, why = c07DecodeNotif(ts, meth[mi], mine[0])
+						have, why, w1, w2 = c07DecodeNotif(ts, meth[mi], mine[0])
 					}
 					if why != "" || have != want {
 						r.Case("wire", key)
 						r.Violation("wire", map[string]interface{}{"case": cs, "monitor": mi, "txn": ti, "received": c07Received(got)}, why+have, want, true,
 							"what the server sent to a monitor for a committed transaction is not what its filter computes for that monitor (rows missing, or no notification at all)", "")
 						return
+					}
+					// and, whatever the filter computes: what arrived, applied to the monitored part of the database
+					// before the transaction, gives the monitored part after it
+					allKinds := true
+					for _, q := range m.Requests {
+						if !(q.Insert && q.Delete && q.Modify) {
+							allKinds = false
+						}
+					}
+					if allKinds {
+						pp, pq := project(ts, m, pre), project(ts, m, post)
+						var after map[string]Row
+						var awhy string
+						if meth[mi] == "monitor" {
+							after, awhy = applyNotif1(ts, m, pp, w1)
+						} else {
+							after, awhy = applyNotif2(ts, m, pp, w2)
+						}
+						if awhy != "" || projCanon(after) != projCanon(pq) {
+							r.Case("wire", key)
+							r.Violation("wire", map[string]interface{}{"case": cs, "monitor": mi, "txn": ti, "received": c07Received(got)}, awhy+projCanon(after), projCanon(pq), true,
+								"the notification received on the wire, applied to the monitored part before the transaction, does not give the monitored part after it", "")
+							return
+						}
 					}
 				}
 				r.Case("wire", key)
@@ -404,7 +435,7 @@ func c07Wire(r *Run, nHist int) {
 }
 
 // c07DecodeNotif: the rows of one notification, canonically (as notif1Canon / notif2Canon print them)
-func c07DecodeNotif(ts TxnSchema, method string, n rawNotif) (string, string) {
+func c07DecodeNotif(ts TxnSchema, method string, n rawNotif) (string, string, []Notif1Row, []Notif2Row) {
 	wantMethod := map[string]string{"monitor": "update", "monitor_cond": "update2", "monitor_cond_since": "update3"}[method]
 	if method == "monitor_cond_since" && n.Method == "update2" {
 		// (the in-tree server notifies monitor_cond_since monitors with update2; the property speaks of the two
@@ -412,35 +443,35 @@ func c07DecodeNotif(ts TxnSchema, method string, n rawNotif) (string, string) {
 		wantMethod = "update2"
 	}
 	if n.Method != wantMethod {
-		return "", fmt.Sprintf("notification method %s for a monitor set up with %s; ", n.Method, method)
+		return "", fmt.Sprintf("notification method %s for a monitor set up with %s; ", n.Method, method), nil, nil
 	}
 	body := n.Params[len(n.Params)-1]
 	if (wantMethod == "update3" && len(n.Params) != 3) || (wantMethod != "update3" && len(n.Params) != 2) {
-		return "", fmt.Sprintf("%s with %d parameters; ", n.Method, len(n.Params))
+		return "", fmt.Sprintf("%s with %d parameters; ", n.Method, len(n.Params)), nil, nil
 	}
 	dec := json.NewDecoder(strings.NewReader(string(body)))
 	dec.UseNumber()
 	var tables map[string]map[string]map[string]interface{}
 	if err := dec.Decode(&tables); err != nil {
-		return "", "table updates that cannot be read: " + err.Error() + "; "
+		return "", "table updates that cannot be read: " + err.Error() + "; ", nil, nil
 	}
 	var n1 []Notif1Row
 	var n2 []Notif2Row
 	for tn, rows := range tables {
 		t := ts.Spec.Table(tn)
 		if t == nil {
-			return "", "unknown table " + tn + "; "
+			return "", "unknown table " + tn + "; ", nil, nil
 		}
 		for u, ru := range rows {
 			if wantMethod == "update" {
 				o, w1 := wireRow(t, ru["old"])
 				nw, w2 := wireRow(t, ru["new"])
 				if w1+w2 != "" {
-					return "", w1 + w2 + "; "
+					return "", w1 + w2 + "; ", nil, nil
 				}
 				for k := range ru {
 					if k != "old" && k != "new" {
-						return "", "row update with member " + k + "; "
+						return "", "row update with member " + k + "; ", nil, nil
 					}
 				}
 				n1 = append(n1, Notif1Row{Table: tn, UUID: u, Old: o, New: nw})
@@ -462,16 +493,16 @@ func c07DecodeNotif(ts TxnSchema, method string, n rawNotif) (string, string) {
 					w = "row update with member " + k
 				}
 				if w != "" {
-					return "", w + "; "
+					return "", w + "; ", nil, nil
 				}
 			}
 			n2 = append(n2, x)
 		}
 	}
 	if wantMethod == "update" {
-		return notif1Canon(n1), ""
+		return notif1Canon(n1), "", n1, n2
 	}
-	return notif2Canon(n2), ""
+	return notif2Canon(n2), "", n1, n2
 }
 
 var _ = sort.Strings
